@@ -71,7 +71,6 @@ def run_case(case):  # pylint: disable=too-many-locals,too-many-branches,too-man
     log = []
     queried = [False] * len(handles)  # handle ran an index query since it was (re)opened
     stale = [False] * len(handles)  # ... and another handle committed a pack since that query
-    nontrivial_queries = 0
     labels = set()
     step = 0
 
@@ -80,135 +79,150 @@ def run_case(case):  # pylint: disable=too-many-locals,too-many-branches,too-man
         exc.log = log
         return exc
 
+    state = {'nontrivial': 0}
+
+    def run_op(op):
+        nonlocal step
+        kind = op['k']
+        hidx = op['h'] % len(handles)
+        cont = handles[hidx]
+        if kind == 'add':
+            data = pool[op['a'] % len(pool)]
+            key = cont.add_object(data) if op['f'] & 1 else cont.add_streamed_object(io.BytesIO(data))
+            if key != digest(hash_type, data):
+                raise viol('wrong-key', f'add through handle {hidx} returned {key}')
+            model[key] = data
+            log.append(f'h{hidx}.add({key[:6]})')
+        elif kind == 'pack':
+            mode = MODES_PACK[op['b'] % len(MODES_PACK)]
+            handles[0].pack_all_loose(compress=_mode(mode), clean_loose_per_pack=bool(op['f'] & 1), validate_objects=not op['f'] & 2)
+            log.append(f'h0.pack({mode},clean_per_pack={bool(op["f"] & 1)})')
+            queried[0] = True
+            for i in range(1, len(handles)):
+                if queried[i]:
+                    stale[i] = True
+        elif kind == 'clean':
+            handles[0].clean_storage()
+            log.append('h0.clean()')
+            queried[0] = True
+            stale[0] = False
+        elif kind == 'reopen':
+            cont.close()
+            handles[hidx] = Container(path)
+            queried[hidx] = stale[hidx] = False
+            log.append(f'h{hidx}.reopen()')
+        else:
+            qkind = QUERIES[op['b'] % len(QUERIES)]
+            keys = sorted(model)
+            sels = op['n'] or [op['a']]
+            request = []
+            for sel in sels:
+                if sel % 3 == 0 or not keys:
+                    request.append(absent_key(hash_type, sel // 3 % 4))
+                else:
+                    request.append(keys[(sel // 3) % len(keys)])
+            if stale[hidx]:
+                state['nontrivial'] += 1
+                labels.add(f'stale-query:{qkind}')
+            tag = f'h{hidx}.{qkind}'
+            if qkind == 'has':
+                got = cont.has_objects(request)
+                want = [k in model for k in request]
+                log.append(f'{tag}({[k[:6] for k in request]})')
+                if got != want:
+                    raise viol(f'stale:{qkind}', f'{tag} returned {got}, model says {want}')
+            elif qkind == 'get':
+                key = request[0]
+                log.append(f'{tag}({key[:6]})')
+                try:
+                    got = cont.get_object_content(key)
+                except NotExistent:
+                    got = None
+                if got != model.get(key):
+                    raise viol(f'stale:{qkind}', f'{tag}({key[:6]}) returned {None if got is None else short(got)}, model has {key in model}')
+            elif qkind == 'bulk':
+                skip = bool(op['f'] & 1)
+                log.append(f'{tag}({[k[:6] for k in request]},skip={skip})')
+                got = cont.get_objects_content(request, skip_if_missing=skip)
+                want = {k: model[k] for k in request if k in model}
+                if not skip:
+                    want.update({k: None for k in request if k not in model})
+                if got != want:
+                    raise viol(f'stale:{qkind}', f'{tag} returned keys {sorted(k[:6] for k, v in got.items() if v is not None)}, model {sorted(k[:6] for k in want if want[k] is not None)}')
+            elif qkind == 'meta':
+                log.append(f'{tag}({[k[:6] for k in request]})')
+                got = {k: (m.type != ObjectType.MISSING, m.size) for k, m in cont.get_objects_meta(request, skip_if_missing=False)}
+                want = {k: (k in model, len(model[k]) if k in model else None) for k in request}
+                if got != want:
+                    raise viol(f'stale:{qkind}', f'{tag} returned {got}, model says {want}')
+            elif qkind == 'stream':
+                key = request[0]
+                log.append(f'{tag}({key[:6]})')
+                try:
+                    with cont.get_object_stream(key) as stream:
+                        data = model.get(key)
+                        if data is None:
+                            raise viol(f'stale:{qkind}', f'{tag} opened a stream for an absent key')
+                        head = stream.read(2)
+                        back = min(len(data), 1 + op['f'] % 5)
+                        stream.seek(-back, 2)
+                        tail = stream.read()
+                        if head != data[:2] or tail != data[len(data) - back :]:
+                            raise viol(f'stale:{qkind}', f'{tag} read wrong bytes')
+                except NotExistent:
+                    if key in model:
+                        raise viol(f'stale:{qkind}', f'{tag}({key[:6]}) raised NotExistent for an acknowledged object') from None
+            elif qkind == 'bulkseek':
+                log.append(f'{tag}({[k[:6] for k in request]})')
+                seen = {}
+                with cont.get_objects_stream_and_meta(request, skip_if_missing=False) as triplets:
+                    for key, stream, meta in triplets:
+                        if stream is None:
+                            seen[key] = None
+                            continue
+                        data = model.get(key, b'')
+                        stream.read(1)
+                        back = min(len(data), 1 + op['f'] % 4)
+                        stream.seek(-back, 2)
+                        tail = stream.read()
+                        stream.seek(0)
+                        seen[key] = (stream.read(), tail, meta.size)
+                want = {k: ((model[k], model[k][len(model[k]) - min(len(model[k]), 1 + op['f'] % 4) :], len(model[k])) if k in model else None) for k in set(request)}
+                if seen != want:
+                    bad = [k[:6] for k in want if seen.get(k, 'absent') != want[k]]
+                    raise viol(f'stale:{qkind}', f'{tag}: seeking reads inside the bulk iteration disagree with the model for {bad}')
+            else:
+                log.append(f'{tag}()')
+                got = list(cont.list_all_objects())
+                if len(got) != len(set(got)):
+                    raise viol('list-dup', f'{tag} yields a key twice')
+                if set(got) != set(model):
+                    raise viol(
+                        f'stale:{qkind}',
+                        f'{tag} misses {sorted(k[:6] for k in set(model) - set(got))} and invents {sorted(k[:6] for k in set(got) - set(model))}',
+                    )
+            queried[hidx] = True
+
     try:
         for op in case['ops']:
             step += 1
-            kind = op['k']
-            hidx = op['h'] % len(handles)
-            cont = handles[hidx]
-            if kind == 'add':
-                data = pool[op['a'] % len(pool)]
-                key = cont.add_object(data) if op['f'] & 1 else cont.add_streamed_object(io.BytesIO(data))
-                if key != digest(hash_type, data):
-                    raise viol('wrong-key', f'add through handle {hidx} returned {key}')
-                model[key] = data
-                log.append(f'h{hidx}.add({key[:6]})')
-            elif kind == 'pack':
-                mode = MODES_PACK[op['b'] % len(MODES_PACK)]
-                handles[0].pack_all_loose(compress=_mode(mode), clean_loose_per_pack=bool(op['f'] & 1), validate_objects=not op['f'] & 2)
-                log.append(f'h0.pack({mode},clean_per_pack={bool(op["f"] & 1)})')
-                queried[0] = True
-                for i in range(1, len(handles)):
-                    if queried[i]:
-                        stale[i] = True
-            elif kind == 'clean':
-                handles[0].clean_storage()
-                log.append('h0.clean()')
-                queried[0] = True
-                stale[0] = False
-            elif kind == 'reopen':
-                cont.close()
-                handles[hidx] = Container(path)
-                queried[hidx] = stale[hidx] = False
-                log.append(f'h{hidx}.reopen()')
-            else:
-                qkind = QUERIES[op['b'] % len(QUERIES)]
-                keys = sorted(model)
-                sels = op['n'] or [op['a']]
-                request = []
-                for sel in sels:
-                    if sel % 3 == 0 or not keys:
-                        request.append(absent_key(hash_type, sel // 3 % 4))
-                    else:
-                        request.append(keys[(sel // 3) % len(keys)])
-                if stale[hidx]:
-                    nontrivial_queries += 1
-                    labels.add(f'stale-query:{qkind}')
-                tag = f'h{hidx}.{qkind}'
-                if qkind == 'has':
-                    got = cont.has_objects(request)
-                    want = [k in model for k in request]
-                    log.append(f'{tag}({[k[:6] for k in request]})')
-                    if got != want:
-                        raise viol(f'stale:{qkind}', f'{tag} returned {got}, model says {want}')
-                elif qkind == 'get':
-                    key = request[0]
-                    log.append(f'{tag}({key[:6]})')
-                    try:
-                        got = cont.get_object_content(key)
-                    except NotExistent:
-                        got = None
-                    if got != model.get(key):
-                        raise viol(f'stale:{qkind}', f'{tag}({key[:6]}) returned {None if got is None else short(got)}, model has {key in model}')
-                elif qkind == 'bulk':
-                    skip = bool(op['f'] & 1)
-                    log.append(f'{tag}({[k[:6] for k in request]},skip={skip})')
-                    got = cont.get_objects_content(request, skip_if_missing=skip)
-                    want = {k: model[k] for k in request if k in model}
-                    if not skip:
-                        want.update({k: None for k in request if k not in model})
-                    if got != want:
-                        raise viol(f'stale:{qkind}', f'{tag} returned keys {sorted(k[:6] for k, v in got.items() if v is not None)}, model {sorted(k[:6] for k in want if want[k] is not None)}')
-                elif qkind == 'meta':
-                    log.append(f'{tag}({[k[:6] for k in request]})')
-                    got = {k: (m.type != ObjectType.MISSING, m.size) for k, m in cont.get_objects_meta(request, skip_if_missing=False)}
-                    want = {k: (k in model, len(model[k]) if k in model else None) for k in request}
-                    if got != want:
-                        raise viol(f'stale:{qkind}', f'{tag} returned {got}, model says {want}')
-                elif qkind == 'stream':
-                    key = request[0]
-                    log.append(f'{tag}({key[:6]})')
-                    try:
-                        with cont.get_object_stream(key) as stream:
-                            data = model.get(key)
-                            if data is None:
-                                raise viol(f'stale:{qkind}', f'{tag} opened a stream for an absent key')
-                            head = stream.read(2)
-                            back = min(len(data), 1 + op['f'] % 5)
-                            stream.seek(-back, 2)
-                            tail = stream.read()
-                            if head != data[:2] or tail != data[len(data) - back :]:
-                                raise viol(f'stale:{qkind}', f'{tag} read wrong bytes')
-                    except NotExistent:
-                        if key in model:
-                            raise viol(f'stale:{qkind}', f'{tag}({key[:6]}) raised NotExistent for an acknowledged object') from None
-                elif qkind == 'bulkseek':
-                    log.append(f'{tag}({[k[:6] for k in request]})')
-                    seen = {}
-                    with cont.get_objects_stream_and_meta(request, skip_if_missing=False) as triplets:
-                        for key, stream, meta in triplets:
-                            if stream is None:
-                                seen[key] = None
-                                continue
-                            data = model.get(key, b'')
-                            stream.read(1)
-                            back = min(len(data), 1 + op['f'] % 4)
-                            stream.seek(-back, 2)
-                            tail = stream.read()
-                            stream.seek(0)
-                            seen[key] = (stream.read(), tail, meta.size)
-                    want = {k: ((model[k], model[k][len(model[k]) - min(len(model[k]), 1 + op['f'] % 4) :], len(model[k])) if k in model else None) for k in set(request)}
-                    if seen != want:
-                        bad = [k[:6] for k in want if seen.get(k, 'absent') != want[k]]
-                        raise viol(f'stale:{qkind}', f'{tag}: seeking reads inside the bulk iteration disagree with the model for {bad}')
-                else:
-                    log.append(f'{tag}()')
-                    got = list(cont.list_all_objects())
-                    if len(got) != len(set(got)):
-                        raise viol('list-dup', f'{tag} yields a key twice')
-                    if set(got) != set(model):
-                        raise viol(
-                            f'stale:{qkind}',
-                            f'{tag} misses {sorted(k[:6] for k in set(model) - set(got))} and invents {sorted(k[:6] for k in set(got) - set(model))}',
-                        )
-                queried[hidx] = True
+            try:
+                run_op(op)
+            except Violation:
+                raise
+            except Exception as exc:  # pylint: disable=broad-except
+                from vlib.interp import library_frame, raised_in_library
+
+                if raised_in_library(exc):
+                    raise viol(f'op-raised:{op["k"]}:{type(exc).__name__}', f'{op["k"]} through a valid handle raised {exc!r} ({library_frame(exc)})') from exc
+                raise
     finally:
         for handle in handles:
             handle.close()
         rm_dir(root)
     fp = [case['nhandles'], [(o['k'], o['h'] % case['nhandles'], o['b'] % 6 if o['k'] == 'query' else 0) for o in case['ops']]]
-    sample = {'nhandles': case['nhandles'], 'history': log[:30], 'queries_on_stale_handle': nontrivial_queries}
-    return nontrivial_queries > 0, fp, sample, ['history'] + sorted(labels)
+    sample = {'nhandles': case['nhandles'], 'history': log[:30], 'queries_on_stale_handle': state['nontrivial']}
+    return state['nontrivial'] > 0, fp, sample, ['history'] + sorted(labels)
 
 
 def shrink(case, exc):
